@@ -142,3 +142,38 @@ class NestedDump:
 
     def __setstate__(self, state):
         self.v = state["v"]
+
+
+class ScalarState:
+    """state is a bare scalar that is computed on the fly (a fresh float object on every call)"""
+
+    def __init__(self, v):
+        self.v = v
+
+    def __getstate__(self):
+        return float(self.v) * 1.0 + 0.0
+
+    def __setstate__(self, state):
+        self.v = state
+
+
+class SometimesRaises:
+    """refuses to be reduced while it is 'open'"""
+
+    def __init__(self, ok):
+        self.ok = ok
+
+    def __reduce__(self):
+        if not self.ok:
+            raise RuntimeError("cannot persist an open handle")
+        return object.__reduce__(self)
+
+    def __reduce_ex__(self, protocol):
+        if not self.ok:
+            raise RuntimeError("cannot persist an open handle")
+        return object.__reduce_ex__(self, protocol)
+
+
+class RaisesStopIteration:
+    def __getstate__(self):
+        return next(iter(()))          # StopIteration
